@@ -241,3 +241,132 @@ func c16LookupBeforeUse(c *Ctx, r *Result, funcs []*ssa.Function) {
 	}
 	r.Floor("R16i", n, 5)
 }
+
+// ---- R19g: what is handed to the caller does not go back to a pool --------------------------------
+
+// A buffer taken from a sync.Pool and put back when the function returns must not be (the backing
+// array of) what the function returns: the next call overwrites the list the ECAL program still
+// holds. Forward taint from Pool.Get through assertions, loads, slicing, append, phis and local
+// variables; a tainted value among the results of a function that also calls Pool.Put (itself or in
+// a deferred literal) is a finding. Elements copied out of the buffer (results[0]) are not tainted.
+func cPoolEscape(c *Ctx, r *Result, rule string, pkgs map[string]bool) {
+	n := 0
+	isPoolCall := func(in ssa.Instruction, m string) bool {
+		name := callName(in)
+		return name == "sync.Pool."+m || name == "(*sync.Pool)."+m
+	}
+	for _, fn := range c.ModFuncs() {
+		if !pkgs[c.PkgOf(fn)] || fn.Parent() != nil {
+			continue
+		}
+		var gets []ssa.Value
+		puts := false
+		scan := func(f *ssa.Function) {
+			allInstrs(f, func(in ssa.Instruction) {
+				if isPoolCall(in, "Get") {
+					if v, ok := in.(ssa.Value); ok && f == fn {
+						gets = append(gets, v)
+					}
+				}
+				if isPoolCall(in, "Put") {
+					puts = true
+				}
+			})
+		}
+		scan(fn)
+		for _, af := range fn.AnonFuncs {
+			scan(af)
+		}
+		if len(gets) == 0 {
+			continue
+		}
+		n++
+		key := c.FuncKey(fn)
+		taint := map[ssa.Value]bool{}
+		cells := map[*ssa.Alloc]bool{}
+		for _, g := range gets {
+			taint[g] = true
+		}
+		for changed := true; changed; {
+			changed = false
+			mark := func(v ssa.Value) {
+				if !taint[v] {
+					taint[v] = true
+					changed = true
+				}
+			}
+			allInstrs(fn, func(in ssa.Instruction) {
+				switch x := in.(type) {
+				case *ssa.TypeAssert:
+					if taint[x.X] {
+						mark(x)
+					}
+				case *ssa.Extract:
+					if taint[x.Tuple] && x.Index == 0 {
+						mark(x)
+					}
+				case *ssa.UnOp:
+					if x.Op == token.MUL {
+						if a, isA := x.X.(*ssa.Alloc); isA && cells[a] {
+							mark(x)
+						} else if taint[x.X] {
+							// *buf: the pooled slice itself (not an element: elements come from IndexAddr)
+							if _, isIdx := x.X.(*ssa.IndexAddr); !isIdx {
+								mark(x)
+							}
+						}
+					}
+				case *ssa.Slice:
+					if taint[x.X] {
+						mark(x)
+					}
+				case *ssa.Phi:
+					for _, e := range x.Edges {
+						if taint[e] {
+							mark(x)
+						}
+					}
+				case *ssa.MakeInterface:
+					if taint[x.X] {
+						mark(x)
+					}
+				case *ssa.ChangeType:
+					if taint[x.X] {
+						mark(x)
+					}
+				case *ssa.Call:
+					if isBuiltinCall(x, "append") && taint[x.Call.Args[0]] {
+						mark(x)
+					}
+				case *ssa.Store:
+					if a, isA := x.Addr.(*ssa.Alloc); isA && taint[x.Val] && !cells[a] {
+						cells[a] = true
+						changed = true
+					}
+				}
+			})
+		}
+		var bad ssa.Instruction
+		allInstrs(fn, func(in ssa.Instruction) {
+			ret, ok := in.(*ssa.Return)
+			if !ok || in.Block() == fn.Recover {
+				return
+			}
+			for _, rv := range ret.Results {
+				if taint[rv] && bad == nil {
+					bad = in
+				}
+			}
+		})
+		site := key + "#pooled-result"
+		if bad != nil && puts {
+			pos := c.Pos(c.InstrPos(bad))
+			r.Instance(rule, site, pos, "finding", "a pooled buffer is returned to the caller and put back", true)
+			r.Report(Finding{Rule: rule, Site: site, Pos: pos,
+				Msg: key + ": a value returned here is (a slice of) a buffer taken from a sync.Pool that the function also puts back: the caller keeps a list whose backing array the next call overwrites — a multi-result function's list changes under the program's hands (math.modf(1.5) later reads [0 1])"})
+		} else {
+			r.Instance(rule, site, c.Pos(fn.Pos()), "ok", "nothing derived from a pooled buffer is among the results (or nothing is put back)", true)
+		}
+	}
+	r.Extra["functions_using_a_pool"] = n
+}
